@@ -3,7 +3,7 @@
 EXTENDS Handover, Json, TLC
 CONSTANTS EmitHist
 VARIABLES hist
-mv == << served, lastValid, buffer, disk, bcast, net, miner, hist >>
+mv == << served, lastValid, buffer, disk, bcast, net, miner, sqlerr, hist >>
 MInit == Init /\ hist = << >>
 MNext == \/ (NetStep /\ hist' = Append(hist, [t |-> "net", a |-> net.pc]))
          \/ (MinerStep /\ hist' = Append(hist, [t |-> "miner", a |-> miner.pc]))
@@ -11,5 +11,5 @@ MSpec == MInit /\ [][MNext]_mv
 Outcome == [x_on_disk |-> X \in disk, b_on_disk |-> B \in disk, x_served |-> X \in served, b_served |-> B \in served,
             b_bcast |-> B \in bcast]
 I_Emit == (EmitHist /\ Quiet) => PrintT(ToJson(<< "HIST", hist, Outcome >>))
-View == << served, lastValid, buffer, disk, bcast, net, miner >>
+View == << served, lastValid, buffer, disk, bcast, net, miner, sqlerr >>
 =============================================================================
